@@ -35,6 +35,19 @@ FIXTURES = [
     '2000-01-07 * \n'
     '  Assets:A  1 # 2 USD\n'.replace('  Assets:A  1 # 2 USD', '  Assets:A  1 USD {1 # 2 USD}') +
     '  Assets:B  {# 3 EUR}\n',
+    # the same kinds of slots with NOTHING between neighbours wherever the grammar allows it (glued layouts), CRLF line ends
+    '2000-01-03 * "payee" "narr" #t ^l;c\r\n'
+    '  kk: FALSE;c\r\n'
+    '  !Assets:A  1 USD{2 EUR,2000-01-01}@3 GBP;c\r\n'
+    '    mm: "x";c\r\n'
+    '  *Assets:B  -10.00 USD{{}}@@\r\n'
+    '  Assets:C  5 USD {12.00# 3.00 USD}\r\n'
+    '  Assets:D  5 USD {12.00#3.00 USD,"l",*}\r\n'
+    '2000-01-02 balance Assets:A 1~0.1 USD;c\r\n'
+    '2000-01-01 open Assets:A USD,EUR "STRICT";c\r\n'
+    '2000-01-04 custom "y" "s" FALSE;c\r\n'
+    '2000-01-06 note Assets:A "n" #t;c\r\n'
+    'plugin "p" "cfg";c\r\n',
 ]
 
 
